@@ -60,6 +60,18 @@ theorem C02_proj (d1 d2 : Dialect) (sch : Schema) (L : LikeFn) (env : PEnv) (e :
   subst this
   exact ⟨v1, e1, e2⟩
 
+/-- **C02_checker_sound** — what the engine establishes on every run: when the verified checker accepts the conditions the REAL
+    translators of two dialects emitted for the same expression, the two statements select the same rows of every database (and
+    neither hits a type error of its backend). -/
+theorem C02_checker_sound (d1 d2 : Dialect) (sch : Schema) (L : LikeFn) (e : Expr) (real1 real2 : SqlList)
+    (h1 : checkConditions sch d1 e real1 = true) (h2 : checkConditions sch d2 e real2 = true)
+    (hL1 : LikeOK L d1) (hL2 : LikeOK L d2) (env : PEnv) (hwt : WT sch env) :
+    ∃ k1 k2, evalCond L d1 (senv d1 env) (.and real1) = some k1 ∧ evalCond L d2 (senv d2 env) (.and real2) = some k2 ∧
+      (k1 = .tt ↔ k2 = .tt) := by
+  obtain ⟨k1, e1, i1⟩ := C01_checker_sound sch d1 L e real1 h1 hL1 env hwt
+  obtain ⟨k2, e2, i2⟩ := C01_checker_sound sch d2 L e real2 h2 hL2 env hwt
+  exact ⟨k1, k2, e1, e2, i1.trans i2.symm⟩
+
 /-! ### the typing guards of the fragment are not removable on PostgreSQL -/
 
 def sch1 : Schema where
